@@ -539,6 +539,11 @@ func c12Coverage(p *Program, r *Report) {
 				r.Lookup(key, f.Pos(), "exempt: "+why)
 				continue
 			}
+			// a field of a synchronisation type (sync.Mutex, atomic.Uint64 counter …) is local bookkeeping, not message content
+			if ft := namedOf(f.Type()); ft != nil && ft.Obj().Pkg() != nil && (ft.Obj().Pkg().Path() == "sync" || ft.Obj().Pkg().Path() == "sync/atomic") {
+				r.Lookup(key, f.Pos(), "not message content: a field of type "+typeName(f.Type())+" (synchronisation / local statistics)")
+				continue
+			}
 			r.Check(wr[f.Name()] && rw[f.Name()], key, f.Pos(), fmt.Sprintf("field is read by the writer (%v) and written by the reader (%v)", wr[f.Name()], rw[f.Name()]))
 		}
 	}
@@ -685,7 +690,7 @@ func (p *Program) shortLengthWrites() []shortWrite {
 	for _, rg := range p.registrations() {
 		visit(rg.Writer, 0)
 	}
-	for _, f := range []*ssa.Function{p.Func("internal/remoting/serialize", "EncodeEnvelopWithRemoting")} {
+	for _, f := range []*ssa.Function{p.streamOwner(p.Func("internal/remoting/serialize", "EncodeEnvelopWithRemoting"))} {
 		visit(f, 0)
 	}
 	return out
